@@ -131,6 +131,10 @@ func (e *engine) dispatch(worker int, raw []byte) error {
 		return e.checkMergeLine(worker, raw)
 	case "diff":
 		return e.checkDiffLine(worker, raw)
+	case "equal":
+		return e.checkEqualLine(worker, raw)
+	case "decode":
+		return e.checkDecodeLine(worker, raw)
 	}
 	return fmt.Errorf("unknown family %q", fam)
 }
